@@ -135,6 +135,7 @@ class CalculationService(BaseSubscriber):
             # Affect this fit by buffs existing in fleet
             if (
                 msg.fit.ship is not None and
+                projector_fit is not msg.fit and
                 projector_fit.fleet is msg.fit.fleet
             ):
                 fits_effect_applications.setdefault(
@@ -170,6 +171,7 @@ class CalculationService(BaseSubscriber):
             # Unaffect this fit by buffs existing in fleet
             if (
                 msg.fit.ship is not None and
+                projector_fit is not msg.fit and
                 projector_fit.fleet is msg.fit.fleet
             ):
                 fits_effect_unapplications.setdefault(
